@@ -45,6 +45,8 @@ type ref struct {
 	// an input declared "earlier", the input it"self", one declared "later", or an "undeclared" name
 	dflt string
 	dpos int
+	// twice: the expression holds the reference two times (both are reported when it is out of scope)
+	twice bool
 }
 
 type gstep struct {
@@ -377,6 +379,9 @@ func (o *out) add(s string) int {
 	return len(o.lines)
 }
 
+// exprTwice: set by exprOf when the expression it returned holds the reference twice
+var exprTwice bool
+
 func exprOf(r *hx.Rng, ctx string, path []string) string {
 	parts := []string{ctx}
 	for _, p := range path {
@@ -406,6 +411,10 @@ func exprOf(r *hx.Rng, ctx string, path []string) string {
 		e = "github.event.pull_request.html_url || " + e
 	case 5:
 		e = "fromJSON(github.event.client_payload.j) && " + e + " || fromJSON(vars.V)[0]"
+	case 6:
+		// the same reference twice in one expression: when it is out of scope, both occurrences are reported
+		e = e + " == 'a' || " + e + " == 'b'"
+		exprTwice = true
 	}
 	return "${{ " + e + " }}"
 }
@@ -414,7 +423,10 @@ func (w *gwf) render(r *hx.Rng) (string, []*ref) {
 	o := &out{}
 	var refs []*ref
 	plant := func(indent string, name string, rf *ref, ctx string) {
+		exprTwice = false
 		rf.line = o.add(fmt.Sprintf("%s%s: %s", indent, name, exprOf(r, ctx, rf.path)))
+		rf.twice = exprTwice
+		exprTwice = false
 		refs = append(refs, rf)
 	}
 	o.add("on:")
@@ -486,6 +498,16 @@ func (w *gwf) render(r *hx.Rng) (string, []*ref) {
 			n++
 			o.add(fmt.Sprintf("      o%d:", n))
 			plant("        ", "value", &ref{kind: refJobs, path: []string{"nojob", "outputs", "x"}}, "jobs")
+			// the inputs of BOTH events are in scope in an output value (and nothing else)
+			auxo := hx.NewRng(uint64(len(o.lines))*31 + 7)
+			for _, nm := range append(append(append([]string{}, w.callInputs...), w.dispatchInputs...), "undefined_name") {
+				n++
+				o.add(fmt.Sprintf("      o%d:", n))
+				rf := &ref{kind: refInputs, path: []string{lower(nm)}}
+				rf.line = o.add("        value: " + exprOf(auxo, "inputs", rf.path))
+				exprTwice = false
+				refs = append(refs, rf)
+			}
 		}
 	}
 	o.add("jobs:")
@@ -950,6 +972,21 @@ func main() {
 			}
 			if rf.dflt != "" {
 				sum.Dist["input_default_reference_"+rf.dflt]++
+			}
+			if rf.twice {
+				sum.Dist["reference_twice_in_one_expression"]++
+				n := 0
+				for _, m := range by[rf.line] {
+					if strings.Contains(m, "is not defined in object type") {
+						n++
+					}
+				}
+				if rf.want == 1 && got == 1 && n != 2 {
+					sum.OracleFails = append(sum.OracleFails, failure{
+						What: fmt.Sprintf("an out-of-scope reference that stands twice in one expression is reported %d time(s)", n),
+						Key:  fmt.Sprintf("scope:same-reference-twice:reported-%d", n), Workflow: src, Line: rf.line,
+						Text: strings.TrimSpace(lines[rf.line-1]), Got: n, Want: 2, Messages: strings.Join(by[rf.line], " | ")})
+				}
 			}
 			if got != rf.want {
 				key := fmt.Sprintf("scope:kind%d:got%d:want%d", rf.kind, got, rf.want)
